@@ -33,23 +33,28 @@ claim("C11", "Two real stream stacks of each kind the tool builds (AKAI windows 
       "windows in the data area, windows over one raw-sector view) share ONE abstract file handle. Decided as an inductive step - one seek/read of a "
       "stream from an ARBITRARY state of every cursor below it (each layer's position/true_size and the handle position symbolic) returns the "
       "isolated-reading bytes and leaves the sibling untouched - which covers interleavings of any length; cross-checked by enumerated 3/4-operation "
-      "schedules (streams, shared parent view, raw handle) and by the real stereo transcoder's alternating reads.",
+      "schedules (streams, shared parent view, raw handle), by the real stereo transcoder's alternating reads, and by ls/export histories on one image object "
+      "(incl. two Roland samples stored inside one FAT chain) compared with fresh objects.",
       XT + "; inductive step over arbitrary shared-cursor states", "DESIGN.md 2/C11")
 
 claim("C18", "Character maps (all 256 bytes each way, and names composed per character), note numbers (all bytes, AKAI and MIDI bases) and note text "
       "(7x2x10) are executed symbolically against an independently transcribed table; the tuning byte <-> cents codec is executed on a symbolic signed "
-      "byte with IEEE-754 double semantics (QF_BVFP) and z3 shows build(parse(b)) == b.", XT + "; symx QF_BVFP for the float codec", "DESIGN.md 2/C18")
+      "byte with IEEE-754 double semantics (QF_BVFP) and z3 shows build(parse(b)) == b; the three live note FIELD adapters (AKAI, Roland original key, WAV smpl) "
+      "are run on a symbolic byte.", XT + "; symx QF_BVFP for the float codec", "DESIGN.md 2/C18")
 
 claim("C14", "The real AKAI table loop runs over an abstract table with a nondeterministic entry sub-parser (symbolic damaged index, symbolic bytes "
       "consumed before the error, symbolic exception type): every other entry is parsed from its own slot and survives in order; the real "
       "FileEntryConstruct is additionally run on a concrete table with one symbolic byte per field (solver walks all 256 values); Volume._realize_files, "
       "SafeListConstruct and the Roland partial's reference loop are run with symbolically failing sub-parsers." + E2E + "in a whole S-770 image (independent writer "
-      "vf/rolandw.py) one byte of one sample's directory or parameter record takes all 256 values; the other samples stay listed and export unchanged.",
+      "vf/rolandw.py) one byte of one sample's directory or parameter record takes all 256 values, for a damaged sample of every loop mode; the other samples "
+      "stay listed and export unchanged.",
       XT + " with nondeterministic sub-parser stubs", "DESIGN.md 2/C14")
 
 claim("C13", "Every loop named in the anchors is run symbolically with a fuel counter whose exhaustion z3 shows unreachable (unwinding assertion): cue-sheet "
       "line consumption for every sequence of line kinds, the AKAI partition scan with a nondeterministic partition body (symbolic size words incl. 0), "
-      "StreamWrapper.readall, the SAT/FAT decoders and get_path (shared with C07) and the directory table loop (shared with C14). The whole-program "
+      "StreamWrapper.readall, the SAT/FAT decoders and get_path (shared with C07), the directory table loop (shared with C14), and the export drain of an "
+      "AKAI / Roland / CDDA sample whose header points are ARBITRARY (emitted bytes <= chain bytes). For every compiled pattern of the package z3 searches a "
+      "string that one repeated group parses in two ways (exponential backtracking), replayed on the real re engine. The whole-program "
       "CPU/memory-proportionality clause is a measurement and is NOT claimed (see level_note).",
       XT + "; termination as solver-checked unwinding assertions", "DESIGN.md 2/C13",
       note=TRUST + " NOT covered: CPU seconds / peak memory of whole runs on arbitrary bytes (not expressible as a bounded symbolic claim); loops inside construct/numpy; keygroup chains.")
@@ -85,7 +90,7 @@ claim("C19", "PARTIAL. The FirFilter class (plain Python inside fir.pyx; also th
       "the current .pyx text and executed symbolically on index-map arrays: for every tap count <= 8, delay, and 2-/3-block split z3 compares the window "
       "of input positions behind every output sample with the one-block run, the output count with the input count, and reset_state with a new filter; "
       "counterexamples are replayed on the compiled class. The int16 saturation helpers are translated from the .pyx text to QF_FP. The Cython kernels "
-      "(IIR, ChickenSys convolution, circular buffer) are NOT APPLICABLE: no Cython and no C/LLVM model checker on this image.",
+      "The CDXtract preset is checked with the taps and delay offset its live constructor passes on. The Cython kernels (IIR, ChickenSys convolution, circular buffer) are NOT APPLICABLE: no Cython and no C/LLVM model checker on this image.",
       XT + " on an index-map array stand-in; QF_FP for saturation", "DESIGN.md 2/C19",
       note=TRUST + " NOT covered (not applicable to this technique here): generic IirFilter, the three ChickenSys IIR presets, _c_chicken_sys_convolve_valid arithmetic. "
       "Known finding F9 (short blocks / 1-tap) is listed in known_findings.txt.")
@@ -97,25 +102,26 @@ claim("C06", "The real make_export_name is executed on a symbolic name (all stri
       "on N symbolic sibling candidates assigns pairwise distinct names inside that language; the real combine_stereo_routine keeps N distinct names "
       "distinct except in the listed known-finding region (stem of a merged pair equals another name); joined components cannot leave the destination; "
       "and (CrossHair) every directory class - generic, AKAI image/volume, CDDA image, Roland performance/partial - applies both renaming routines to its "
-      "children exactly once.", ST + "; CrossHair for the per-level routine obligations", "DESIGN.md 2/C06")
+      "children exactly once." + E2E + "whole AKAI volumes / Roland performances / cue sheets whose sibling names are drawn by the solver from classes of awkward names (L/R look-alikes, dots, separators, blanks, duplicates) go through the real entry points; every exported channel is traced back to its sample by content; paths are distinct, safe, inside the destination and as many as the Exported lines.", ST + "; CrossHair for the per-level routine obligations and the name images", "DESIGN.md 2/C06")
 
 claim("C05", "The real combine_stereo_routine/combine_stereo run on N symbolic, pairwise distinct sibling names: z3 shows that exactly the pairs the statement "
       "defines (same name up to a final L/R preceded by blank or hyphen) are merged, with the L stream first whatever the order in the directory, named after "
       "the stem, and that every other sample passes through once and unchanged (channels add up to N, no stream twice). Channel placement of the two streams "
-      "is decided by the stereo obligations of C11/C12; per-level hand-over by a CrossHair run of the real export_samples on stub trees.",
+      "is decided by the stereo obligations of C11/C12; per-level hand-over by a CrossHair run of the real export_samples on stub trees." + E2E + "whole AKAI volumes / Roland performances / cue sheets whose sibling names are drawn by the solver from classes of awkward names (L/R look-alikes, dots, separators, blanks, duplicates) go through the real entry points; every exported channel is traced back to its sample by content and must be exactly the files the statement prescribes.",
       ST + "; CrossHair for level hand-over and interleaving", "DESIGN.md 2/C05")
 
 claim("C10", "Symbolic raw sibling names go through the real make_safe_names_routine (the names ls prints) and the real parse_path (generic and AKAI token "
       "normalisation, live tokenising regex) on blanks+name+blanks[+separator+blanks]: z3 shows every non-blank printed name resolves to exactly its item; a "
       "two-level path with symbolic separators (/ \\ \\\\), blanks and trailing separator resolves to the leaf; an arbitrary symbolic path string either resolves "
       "or raises ErrorInvalidPath and nothing else; rendering of solver-chosen item shapes yields one line per leaf; ls_action prints exactly the not-found "
-      "message.", ST + "; CrossHair for rendering and the ls action", "DESIGN.md 2/C10")
+      "message." + E2E + "whole AKAI volumes / Roland performances / cue sheets whose sibling names are drawn by the solver from classes of awkward names (L/R look-alikes, dots, separators, blanks, duplicates) go through the real entry points; every printed row must resolve (5 spellings) to its own item, identified by a per-item header value, and corrupted paths must say not found.", ST + "; CrossHair for rendering, the ls action and the name images", "DESIGN.md 2/C10")
 
 claim("C17", "Each live line regex is compiled to a z3 formula and shown to match a line with symbolic keyword casing and symbolic blank characters (run lengths "
       "enumerated) with the canonical line's groups, and lines starting with any other keyword to match none; an AST check shows cuesheet.py touches a line only "
       "through strip/len/those patterns. The real parse_cue_sheet is then run on solver-chosen canonical sheets (1..3 tracks, TITLE / second INDEX / data track "
       "presence) with one or two cosmetic lines inserted at every admissible position and with whole-sheet re-casing/re-indenting, and must return the "
-      "canonical meaning; no FILE line / non-ASCII text is rejected and falls through to the binary detectors.",
+      "canonical meaning; no FILE line / non-ASCII text is rejected and falls through to the binary detectors; parse_text_file is run over a file object with "
+      "symbolic line lengths (documented readlines/read semantics) and must hand over every line.",
       ST + " for the line regexes; CrossHair decision-tree enumeration for whole sheets", "DESIGN.md 2/C17")
 
 claim("C16", "Cursor independence is C11's inductive step; a second export from the same sample object is shown to yield "
